@@ -132,6 +132,21 @@ Theorem C02_section_observations_any_order_compressed :
 Proof. exact session_compressed. Qed.
 Print Assumptions C02_section_observations_any_order_compressed.
 
+(* which header describes "section n": the one at e_shoff + n * e_shentsize, for ANY entry size
+   (the gABI allows entries larger than the structure), whichever entry point led to the section -
+   get_section(n), iter_sections(), iter_sections(type), get_section_by_name, get_section_index all go
+   through Model.C02Contents.section_header_at.  sh_name, sh_link, sh_info, sh_entsize are free.  The
+   contents theorems above then apply to the sheader obtained. *)
+Theorem C02_section_header_file_exact :
+  forall le is64 T shoff shentsize n name type flags addr offset size link info addralign entsize (A R : list Z),
+  let vals := shdr_vals name type flags addr offset size link info addralign entsize in
+  fits_layout (spec_Elf_Shdr le is64) vals = true ->
+  zlen A = shoff + n * shentsize ->
+  section_header_at (A ++ encode_layout (spec_Elf_Shdr le is64) vals ++ R) le is64 T shoff shentsize n
+  = Ok (mk_sheader (dec_enum T type) flags addr offset size addralign).
+Proof. exact section_header_file_exact. Qed.
+Print Assumptions C02_section_header_file_exact.
+
 (* ---------------- segments ---------------- *)
 Theorem C02_segment_data : forall pre body tail,
   segment_data (pre ++ body ++ tail) (zlen pre) (zlen body) = body.
@@ -312,6 +327,14 @@ Example C02_ex_phdrs :
   let img := [1; 2; 3] ++ enc_phdr true true h1 ++ [0xaa; 0xbb; 0xcc; 0xdd] ++ enc_phdr true true h2 ++ [0xee] in
   forallb (phdr_fits true true) [h1; h2] = true /\ phdrs_at true true img 3 60 [h1; h2] = true /\
   addr_map [h1; h2] 0x400100 0x100 = [0x1100].
+Proof. vm_compute. repeat split. Qed.
+(* section 2 of a table at offset 5 whose entries are 47 bytes apart (ELF32, 7 bytes of padding each) *)
+Example C02_ex_section_header_stride :
+  let vals := shdr_vals 11 1 0x800 0x4000 0x300 0x55 3 4 16 8 in
+  let img := repeat 0xee (5 + 2 * 47) ++ encode_layout (spec_Elf_Shdr true false) vals ++ [1; 2; 3] in
+  fits_layout (spec_Elf_Shdr true false) vals = true /\
+  section_header_at img true false (sh_type_table "EM_386") 5 47 2
+  = Ok (mk_sheader (Name "SHT_PROGBITS") 0x800 0x4000 0x300 0x55 16).
 Proof. vm_compute. repeat split. Qed.
 (* an unmapped PT_NOTE (p_memsz = 0 < p_filesz = 3) whose header sits behind its bytes in an ELF32 BE image *)
 Example C02_ex_segment_unmapped :
